@@ -72,13 +72,13 @@ manifest = {
         "guard": "--cfg geo_booleanop_verif",
         "enable": "harness/.cargo/config.toml sets rustflags = [\"--cfg\", \"geo_booleanop_verif\"]; the harness crate has a path dependency on /repo/lib and is rebuilt by every check",
         "baseline_off_cmd": "cd /repo && cargo test --workspace --no-fail-fast --offline",
-        "source_commits": ["e1132c0"],
+        "source_commits": ["e1132c0", "b4add1c"],
         "add_only": True,
     },
     "engines": [{"name": "gbo-lean", "path": "/verif/lean", "serves_properties": sorted(TEXT),
                  "kind_free_text": "Lean 4 model + theorems (lean/Gbo), compiled model driver, Rust correspondence harness (harness/), python orchestrator (tools/)"}],
     "checks": checks,
-    "notes": "Fix commits in /repo: 1711bf9 (F1), 60217e3 (F2), ec266fd (N3). Known findings: known_findings.json. See DESIGN.md.",
+    "notes": "Fix commits in /repo: 1711bf9 (F1), 60217e3 (F2), ec266fd (N3), cfe602f (F3). Known findings (N2, R1, R1-panic, N4): known_findings.json. See DESIGN.md.",
     "not_applicable": [],
 }
 json.dump(manifest, open(os.path.join(ROOT, "MANIFEST.json"), "w"), indent=1)
